@@ -1,6 +1,29 @@
 #![doc = include_str!("../README.md")]
 #![warn(missing_docs, missing_debug_implementations)]
 
+#[cfg(feature = "verif")]
+macro_rules! fp {
+    ($id:ident) => {
+        crate::verif::point(crate::verif::$id)
+    };
+}
+#[cfg(not(feature = "verif"))]
+macro_rules! fp {
+    ($id:ident) => {};
+}
+#[cfg(feature = "verif")]
+macro_rules! fpa {
+    ($a:expr) => {
+        crate::verif::after_acquire_fence($a as *const _ as *const u8)
+    };
+}
+#[cfg(not(feature = "verif"))]
+macro_rules! fpa {
+    ($a:expr) => {};
+}
+#[cfg(feature = "verif")]
+pub mod verif;
+
 pub(crate) mod backoff;
 pub(crate) mod internal;
 #[cfg(not(feature = "std-mutex"))]
@@ -131,6 +154,14 @@ impl<T> fmt::Debug for AsyncSender<T> {
 
 macro_rules! shared_impl {
     () => {
+        /// (verification hook) wait-list length and whether it holds
+        /// receivers, read under the channel lock.
+        #[cfg(feature = "verif")]
+        #[doc(hidden)]
+        pub fn verif_waiters(&self) -> (usize, bool) {
+            let internal = acquire_internal(&self.internal);
+            (internal.wait_list.len(), internal.recv_blocking)
+        }
         /// Returns whether the channel is bounded or not.
         ///
         /// # Examples
